@@ -5,6 +5,7 @@ import (
 	"fmt"
 	"io"
 	"maps"
+	"unicode/utf8"
 )
 
 // HashEnvelopePayload indicates the payload of a Hash_Envelope object.
@@ -178,11 +179,11 @@ func validateHashEnvelopeHeaders(headers *Headers) error {
 			}
 			foundPayloadHashAlgorithm = true
 		case HeaderLabelPayloadPreimageContentType:
-			if !canUint(value) && !canTstr(value) {
+			if !canUint(value) && !canText(value) {
 				return errors.New("protected header parameter: payload preimage content type: require uint / tstr type")
 			}
 		case HeaderLabelPayloadLocation:
-			if !canTstr(value) {
+			if !canText(value) {
 				return errors.New("protected header parameter: payload location: require tstr type")
 			}
 		}
@@ -212,4 +213,12 @@ func validateHashEnvelopeHeaders(headers *Headers) error {
 	}
 
 	return nil
+}
+
+// canText reports whether v is a Go string the CBOR decoder will take for a
+// text string: the encoder writes any Go string as major type 3, the decoder
+// refuses text that is not valid UTF-8.
+func canText(v any) bool {
+	s, ok := v.(string)
+	return ok && utf8.ValidString(s)
 }
